@@ -188,6 +188,26 @@ EVAL_UP_TO_SEQUENCES = [
 BOUNDED.append({"name": "eval_up_to_sequences", "kind": "session-alive", "props": ["C09"], "input": EVAL_UP_TO_SEQUENCES, "n_inputs": len(EVAL_UP_TO_SEQUENCES),
                 "bound": "%d request sequences with eval_up_to requests on parameters and expressions of functions / methods that were called with another number of arguments, never called, or not defined: every request answered, no panic, the last request (40 + 2) answered with 42" % len(EVAL_UP_TO_SEQUENCES),
                 "expect": {}})
+_WIDE = "let s = \"\u00e9\u20ac\u00e9\u20ac\"\ns\n"
+REQUEST_SPAN_SEQUENCES = [
+    # the end of the span past the end of the input; the start past the end; start after end
+    [{"method": "run", "input": "1 + 1", "end_offset": 4000}, "40 + 2"],
+    [{"method": "run", "input": "1 + 1", "offset": 4000}, "40 + 2"],
+    [{"method": "run", "input": "1 + 1", "offset": 3, "end_offset": 1}, "40 + 2"],
+    [{"method": "load", "input": "fun f() { 1 }", "path": "/tmp/span.gdn", "offset": 0, "end_offset": 4000}, "40 + 2"],
+    [{"method": "load", "input": "fun f() { 1 }", "path": "/tmp/span.gdn", "offset": 4000, "end_offset": 4001}, "40 + 2"],
+    [{"method": "load", "input": "fun f() { 1 }", "path": "/tmp/span.gdn", "offset": 5, "end_offset": 2}, "40 + 2"],
+    # offsets inside a multi-byte character
+    [{"method": "run", "input": _WIDE, "offset": 10}, "40 + 2"],
+    [{"method": "run", "input": _WIDE, "end_offset": 12}, "40 + 2"],
+    [{"method": "load", "input": _WIDE, "path": "/tmp/span.gdn", "offset": 10, "end_offset": 13}, "40 + 2"],
+    # spans that are fine: the whole input, an inner item, an empty span at the end
+    [{"method": "run", "input": "1 + 1\n2 + 2\n", "offset": 6, "end_offset": 11}, {"method": "run", "input": "1 + 1", "offset": 5, "end_offset": 5},
+     {"method": "load", "input": "fun f() { 1 }", "path": "/tmp/span.gdn", "offset": 0, "end_offset": 13}, "40 + 2"],
+]
+BOUNDED.append({"name": "request_span_sequences", "kind": "session-alive", "props": ["C09"], "input": REQUEST_SPAN_SEQUENCES, "n_inputs": len(REQUEST_SPAN_SEQUENCES),
+                "bound": "%d request sequences whose run / load requests carry offset / end_offset past the end of the input, in the wrong order, inside a multi-byte character, or valid: every request answered, no panic, the last request (40 + 2) answered with 42" % len(REQUEST_SPAN_SEQUENCES),
+                "expect": {}})
 BOUNDED.append({"name": "moderately_nested_requests", "kind": "session-alive", "props": ["C09"], "n_inputs": 3,
                 "input": [["(" * 20 + "1" + ")" * 20, "40 + 2"], ["[" * 20 + "]" * 20, "40 + 2"], [" + ".join("1" for _ in range(40)), "40 + 2"]],
                 "bound": "3 request sequences whose first request nests 20 brackets or chains 40 operands: answered, and the session answers 40 + 2 afterwards", "expect": {}})
